@@ -71,7 +71,12 @@ def cmd_args(cmd, arg, password=None):
 def argv_of(vec, password=None):
     a = []
     if vec["file"] != "none":
-        a += ["--file", FILE[vec["file"]]]
+        # both spellings of the option
+        a += ["-f" if (vec["account"] == "default" and vec["testnet"]) else "--file", FILE[vec["file"]]]
+    if vec.get("help"):
+        tail = cmd_args(vec["cmd"], vec["arg"], password)
+        # --help of the sub-command when there is one (before its positional), else the global one
+        return a + (tail[:1] + ["--help"] if tail else ["--help"])
     if vec["testnet"]:
         a.append("--testnet")
     if vec["paranoia"]:
